@@ -225,6 +225,23 @@ pub fn gen_cases(seed: u64, n: usize, thorough: bool) -> Vec<String> {
             }
         }
     }
+    // three candidates of two parameters that differ only in vector width (the second stage of the resolution ranks them
+    // by exact / expanded / contracted arguments), under every declaration order, for vector and scalar arguments
+    let perms3 = ["0 1 2", "0 2 1", "1 0 2", "1 2 0", "2 0 1", "2 1 0"];
+    for (sc, _) in SCALARS.iter().skip(1).take(4) {
+        let shapes: Vec<String> = ["v2", "v3", "v4"].iter().flat_map(|a| ["v2", "v3", "v4"].iter().map(move |b| format!("{}{},{}{}", sc, a, sc, b))).collect();
+        let mut sets: Vec<[usize; 3]> = Vec::new();
+        for i in 0..shapes.len() { for j in i + 1..shapes.len() { for k in j + 1..shapes.len() { sets.push([i, j, k]); } } }
+        let step = if thorough { 1 } else { 7 };
+        for (n_, set) in sets.iter().enumerate() {
+            if n_ % step != 0 { continue; }
+            for args in [format!("{}v4r {}v4r", sc, sc), format!("{}v3r {}v4r", sc, sc), format!("{}sr {}sr", sc, sc)] {
+                for p in perms3.iter().skip(1) {
+                    out.push(format!("0:2:{} 1:2:{} 2:2:{} | {} | {}", shapes[set[0]], shapes[set[1]], shapes[set[2]], args, p));
+                }
+            }
+        }
+    }
     // random sets: 2-5 overloads, 1-3 parameters
     for _ in 0..n {
         let nover = rng.range(2, 5) as usize;
